@@ -69,6 +69,8 @@ type Contract struct {
 	Assumed  bool
 	NoBody   bool
 	Inline   bool
+	Split    bool // path-sensitive execution (no state merging at joins)
+	Dispatch map[string][]string // call site -> candidate methods (Type.Method) for an interface call
 	File     string
 	Line     int
 }
@@ -175,6 +177,17 @@ func (sp *Specs) LoadFile(path, defaultPkg string) error {
 				sp.Markers = append(sp.Markers, where+": trusted (body not verified) "+cur.Key)
 			case "inline":
 				cur.Inline = true
+			case "split":
+				cur.Split = true
+			case "dispatch":
+				f := strings.Fields(rest)
+				if len(f) < 2 {
+					return fail(fmt.Errorf("dispatch needs a call site and candidates"))
+				}
+				if cur.Dispatch == nil {
+					cur.Dispatch = map[string][]string{}
+				}
+				cur.Dispatch[f[0]] = f[1:]
 			case "requires", "ensures", "checks", "effect":
 				props, rest2 := takeProps(rest)
 				e, err := ParseExpr(rest2)
